@@ -69,14 +69,20 @@ def run(rep, tier):
                 "larger inputs: deeper mixed-type terms with right-hand sides computed by the code's own evaluators across types, near-equal "
                 "rationals, decimal sums forcing const_inequality's float path, real powers with compound nat exponents (nested truncated "
                 "subtraction, closed and with free nat variables), polynomial identities with free variables (the code's own "
-                "normal forms, textbook identities, perturbations), equivalences of comparisons, huge constants. Non-trivial = some step "
+                "normal forms, textbook identities, perturbations), equivalences of comparisons, constants around and beyond 2^31 / 2^53 / 2^62 "
+                "(exact and non-exact quotients (a*b)/b, sums, differences and products crossing the boundaries, negative ones, at nat/int/real). Non-trivial = some step "
                 "ACCEPTED the goal and the truth of the asserted sequent was decided by TLC with exact arithmetic; distinct by full event content."
                 % ("{0,2,3}" if quick else "{0,1,2,3,7}", "compound terms that some evaluator model equates" if quick else "compound terms (sums, differences, and all that some evaluator model equates)"))
     rep.assumptions = ["meaning of numerals/operators read off library/nat.json, int.json, real.json, transcendentals.json (see spec/C05_HolArith.tla); "
                        "int ^ nat taken as the standard power",
                        "NOT examined (never judged): irrational constants and functions (pi, exp, log, sin, ..., sqrt of a non-square), non-integer "
-                       "exponents, constants at types where the library gives them no meaning (uminus/real_divide at nat, ...), magnitudes "
-                       "beyond 2^30 (TLC integers are 32-bit), constants distinguished only below float precision",
+                       "exponents, constants at types where the library gives them no meaning (uminus/real_divide at nat, ...), irrational "
+                       "values distinguished only below float precision",
+                       "magnitudes: statements within 2^30 are decided with TLC's native integers; CLOSED statements beyond that are decided with "
+                       "arbitrary-precision limb arithmetic (spec/lib/BigInt.tla, itself model-checked against native integers and the ring laws "
+                       "in spec/C05_BigIntLaws.tla; C05_Arith checks that both evaluators agree on the whole universe). Beyond 2^30 still not "
+                       "examined: statements with free variables, DIV/MOD/sqrt, exponents above 64 or not literally integral, results longer "
+                       "than ~1600 digits",
                        "identities with free variables: a false grid point is a refutation; agreement on the grid is only 'not refuted'",
                        "TLC/SANY, the structural projection in harness/drivers/c05.py (raw fields only), CPython"]
     vec, ev_vec, ev_rand, allp = wd / "vectors.ndjson", wd / "vec.ndjson", wd / "rand.ndjson", wd / "all.ndjson"
@@ -92,13 +98,37 @@ def run(rep, tier):
                     ("int_step_evaluates_nat_terms",
                      [("C05_HolArith.tla", "[] s = \"int_eval\" -> g[1] = \"equals\" /\\ IsRel(g) /\\ ArgT(g) = \"int\"",
                        "[] s = \"int_eval\" -> g[1] = \"equals\" /\\ IsRel(g) /\\ ArgT(g) \\in {\"int\", \"nat\"}")], ["Sound"])]
-    # ---- design level (S) + oracle non-vacuity (mutants on a tiny universe) + the seeded driver, side by side
+    # big-integer module: its laws are model-checked, and mutants of it must be caught
+    bcfg = "C05_BigIntLaws.cfg" if quick else "C05_BigIntLaws_wide.cfg"
+    blaws = ["NativeAgrees", "RingLaws", "RatLaws"]
+    bmutants = [("bigint_carry_dropped", [("lib/BigInt.tla", "<<s % BBase>> \\o MAddC(ta, tb, s \\div BBase)", "<<s % BBase>> \\o MAddC(ta, tb, 0)")], blaws)]
+    if not quick:
+        bmutants += [("bigint_borrow_dropped", [("lib/BigInt.tla", "<<d + BBase>> \\o MSubB(Tail(a), tb, 1)", "<<d + BBase>> \\o MSubB(Tail(a), tb, 0)")], blaws),
+                     ("bigint_product_carry_dropped", [("lib/BigInt.tla", "<<s % BBase>> \\o MMulLimb(Tail(a), d, s \\div BBase)", "<<s % BBase>> \\o MMulLimb(Tail(a), d, 0)")], blaws),
+                     ("bigrat_compare_ignores_denominators",
+                      [("lib/BigInt.tla", "ELSE BCmp(BMul(x[1], y[2]), BMul(y[1], x[2]))", "ELSE BCmp(x[1], y[1])")], blaws)]
+        mutants += [("big_evaluator_truncates_everywhere",
+                     [("C05_HolArith.tla", "THEN (IF T = \"nat\" THEN BMkV(T, BNatMinus(QB(a1), QB(a2))) ELSE BMkV(T, QSub(QB(a1), QB(a2)))) ELSE NAb",
+                       "THEN BMkV(T, BNatMinus(QB(a1), QB(a2))) ELSE NAb")], ["BigAgrees"])]
+
+    def side():
+        for n, ed, exp in mutants:
+            spec_mutant(rep, n, "C05_Arith", "C05_Arith_tiny.cfg", ed, exp, wd=wd, workers=1)
+        rb = model_check("C05_BigIntLaws", bcfg, wd=wd / "mcb", workers=1, timeout=7200)
+        for n, ed, exp in bmutants:
+            spec_mutant(rep, n, "C05_BigIntLaws", "C05_BigIntLaws.cfg", ed, exp, wd=wd, workers=1)
+        return rb
+    # ---- design level (S) + oracle non-vacuity (mutants on a tiny universe) + the big-integer laws, side by side
     with ThreadPoolExecutor(max_workers=2) as ex:
         f1 = ex.submit(model_check, "C05_Arith", "C05_Arith_%s.cfg" % sfx, wd=wd / "mc", workers=1 if quick else 4,
                        env={"VECTOR_FILE": vec}, timeout=7200)
-        f3 = ex.submit(lambda: [spec_mutant(rep, n, "C05_Arith", "C05_Arith_tiny.cfg", ed, exp, wd=wd, workers=1) for n, ed, exp in mutants])
+        f3 = ex.submit(side)
         r = f1.result()
-        f3.result()
+        rb = f3.result()
+    rep.add_mc("C05_BigIntLaws", rb, bcfg)
+    if rb.violated:
+        rep.design_violation("C05_BigIntLaws", rb)
+        return
     rep.add_mc("C05_Arith", r, sfx)
     if r.violated:
         rep.design_violation("C05_Arith", r)
@@ -118,8 +148,10 @@ def run(rep, tier):
     require(len(evs) < RAND_BASE and len(evs2) < SELF_BASE - RAND_BASE, "C05: tid ranges overlap")
     for e in evs2:
         e["tid"] += RAND_BASE
-    write_events(allp, evs + evs2)
-    v = validate_trace(TSPEC, allp, wd=wd / "tv", nchunks=2 if quick else 4)
+    nch = 2 if quick else 4
+    allv = evs + evs2
+    write_events(allp, [e for j in range(nch) for e in allv[j::nch]])     # interleaved: the contiguous chunks get the same mix of events
+    v = validate_trace(TSPEC, allp, wd=wd / "tv", nchunks=nch)
 
     def part(lo, hi, n):
         d = {"consumed": n, "states": 0, "wall": v["wall"], "info": []}
